@@ -487,7 +487,11 @@ pub fn run(tier: &str, seed: u64) -> i32 {
          the same verdict vector; (2) two freshly spawned worker processes print the same digests (expression, \
          verdicts) as each other and as this process; (3) 16 threads sharing one rule value match the documents in \
          independently shuffled orders and agree with the sequential verdicts; (4) verdicts do not depend on which \
-         documents were matched before, and matching leaves the rule's printed form unchanged. Non-trivial: the \
+         documents were matched before, and matching leaves the rule's printed form unchanged; (5) ~120 curated rules \
+         - near twins over ten needles that differ only in case flag, relation, cast, field, quantifier or the case of a \
+         regex escape, loads that fail part-way next to rules with number literals, zeros of both signs under str() - \
+         are loaded in opposite orders by two fresh processes and must print the same digests, and equal documents at \
+         different positions of a sequence must get equal results. Non-trivial: the \
          optimised expression differs from the unoptimised one and either both verdicts occur or >= 2 merged groups \
          exist; distinct by optimised expression.",
         REPEATS
